@@ -83,13 +83,16 @@ def classifyToken (t : String) : TokKind :=
 def expandHome (env : PathEnv) (t : String) : String :=
   env.home ++ String.ofList (t.toList.drop 1)
 
+/-- `str(Path(p).resolve())` -/
+def resolveAbs (env : PathEnv) (p : String) : String := env.resolve (purePath p)
+
 /-- `_expand_token` -/
 def expandToken (env : PathEnv) (token cwd : String) (forcePath : Bool) : String :=
   match classifyToken token with
   | .url => token
   | .variable => token
-  | .absolute => token
-  | .home => expandHome env token
+  | .absolute => resolveAbs env token
+  | .home => resolveAbs env (expandHome env token)
   | .userHome => token
   | .relative => env.resolve (pathJoin cwd token)
   | .bare => if forcePath then env.resolve (pathJoin cwd token) else token
